@@ -410,5 +410,52 @@ func buildC11(cfg *mon.Config) []*mon.Sub {
 			return ""
 		},
 	}
-	return []*mon.Sub{exh, rnd, hooked}
+	sweeps := &mon.Sub{
+		Name:          "long-sweeps",
+		Rule:          "contents of 20..40 lines of varying length with each of the break patterns LF, CR, CRLF, LFCR, LF LF CR and CR CR placed at every offset within 3 of 255, 256, 511, 512, 1023, 1024, 2047, 2048 and 4096; the scanner is read to the end and then un-read back to the start one character at a time, then walked back and forth in blocks of 17 and 40, the model compared after every operation; a case is one content",
+		Exhaustive:    true,
+		DistinctByGen: true,
+		Floor:         50,
+		Gen: func(emit func(string)) {
+			pats := []string{"\n", "\r", "\r\n", "\n\r", "\n\n\r", "\r\r", "\n\rx\r"}
+			bases := []int{255, 256, 511, 512, 1023, 1024, 2047, 2048, 4096}
+			if cfg.Quick() {
+				bases = []int{255, 256, 1023, 1024, 2048}
+			}
+			for _, base := range bases {
+				for d := -3; d <= 3; d++ {
+					for pi, pat := range pats {
+						var b strings.Builder
+						line := 0
+						for b.Len() < base+d {
+							n := 3 + (line*7+pi)%23
+							if b.Len()+n+1 > base+d {
+								n = base + d - b.Len()
+								b.WriteString(strings.Repeat("x", n))
+								break
+							}
+							b.WriteString(strings.Repeat("x", n))
+							b.WriteString(pats[(line+pi)%4])
+							line++
+						}
+						b.WriteString(pat)
+						for k := 0; k < 22; k++ {
+							b.WriteString(strings.Repeat("y", (k*5+pi)%9))
+							b.WriteString(pats[(k+pi)%len(pats)])
+						}
+						content := b.String()
+						n := len([]rune(content))
+						ops := strings.Repeat("r", n+1) + strings.Repeat("u", n+2)
+						for k := 0; k < 6; k++ {
+							ops += strings.Repeat("r", 40) + strings.Repeat("u", 17)
+						}
+						ops += strings.Repeat("r", n) + strings.Repeat("M", n/3+2)
+						emit(c11Payload(content, 0, ops))
+					}
+				}
+			}
+		},
+		Exec: c11Exec(0),
+	}
+	return []*mon.Sub{exh, rnd, hooked, sweeps}
 }
